@@ -510,7 +510,17 @@ def refs_found(n1: int, n2: int, two: bool, a: int, b: int) -> bool:
     doc = {"t": {"HED": {"s": cat, "u": "Up"}}, "w": {"HED": ("{" + y + "}, L/#") if two else "L/#"},
            "n": {"Levels": {"a": "{zz}"}}}
     sc = sidecar_stub.load(doc)
-    got = sorted(sc.get_column_refs())
+    # every text is a concrete element of the tables above by now (the solver picked the selectors); pandas runs
+    # natively: traced, each .str accessor forks 4-5 ways on concrete data
+    try:
+        from crosshair.tracers import NoTracing
+    except ImportError:
+        NoTracing = None
+    if NoTracing is None:
+        got = sorted(sc.get_column_refs())
+    else:
+        with NoTracing():
+            got = sorted(sc.get_column_refs())
     want = [x]
     if two and y != x:
         want.append(y)
